@@ -133,7 +133,10 @@ def credJsonOfText (r : JsonOutcome) : Except Err JVal :=
   match r with
   | .ok j => .ok j
   | .decodeError => .error (jsErr "cred.json")
-  | .otherError c => if c.startsWith "oom:" then .error (oomErr c) else .error (nonlibErr c "cred.json")
+  | .otherError c =>
+    if c.startsWith "oom:" then .error (oomErr c)
+    else if isValueErrorClass c then .error (jsErr "cred.json")
+    else .error (nonlibErr c "cred.json")
 
 def parseRegCredText (s : String) : M RegCredJson := do
   let r ← jsonLoadsStrM s
